@@ -491,6 +491,16 @@ func (c *Conn) Close() {
 	_ = c.cur.Close()
 }
 
+// GracefulClose sends FIN, keeps reading until the client closes too (or the
+// time-out), then closes. A plain Close with unread client data in the
+// receive buffer makes the kernel send RST, which can destroy data the client
+// has not read yet; the harness must not inject that fault by accident.
+func (c *Conn) GracefulClose(timeout time.Duration) {
+	c.HalfClose()
+	c.Drain(timeout)
+	_ = c.cur.Close()
+}
+
 // HalfClose shuts down the sending side only and keeps reading.
 func (c *Conn) HalfClose() {
 	c.Note("half-close")
